@@ -519,9 +519,40 @@ func finishCheck(id string, opts checkOpts, eng *Engine, t0 time.Time, replayDir
 	bounded := runBounded(eng, id, opts, replayDir)
 	for _, b := range bounded {
 		if b["failures"].(int) > 0 || b["error"] != nil {
-			violations++
-			fmt.Printf("VIOLATION property=%s replay=%s\n", id, b["replay"])
-			fmt.Printf("  bounded check %s: %v failing case(s): %v\n", b["file"], b["failures"], b["first_failure"])
+			// failing cases are grouped by the class the test prints after GOCV-FAIL; a class listed
+			// in known-findings.txt (obligation=bounded:<file>#<class>) is a recorded finding, any
+			// other failing class (or an unclassified failure) is a violation
+			classes, _ := b["failing_classes"].(map[string]string)
+			unknown := 0
+			var knownLines []string
+			for cl, first := range classes {
+				name := "bounded:" + b["file"].(string) + "#" + cl
+				isKnown := false
+				for _, k := range findings {
+					if k.kind == "finding" && k.property == id && k.obl == name {
+						isKnown = true
+						txt := strings.TrimSpace(strings.TrimPrefix(k.text, "finding:"))
+						txt = strings.TrimSpace(strings.TrimPrefix(txt, "property="+id))
+						knownLines = append(knownLines, fmt.Sprintf("KNOWN-FINDING: property=%s %s", id, txt))
+						_ = first
+					}
+				}
+				if !isKnown {
+					unknown++
+				}
+			}
+			sort.Strings(knownLines)
+			for _, ln := range knownLines {
+				fmt.Println(ln)
+				knownMatched = append(knownMatched, ln)
+			}
+			if unknown > 0 || len(classes) == 0 || b["error"] != nil {
+				violations++
+				fmt.Printf("VIOLATION property=%s replay=%s\n", id, b["replay"])
+				fmt.Printf("  bounded check %s: %v failing case(s): %v\n", b["file"], b["failures"], b["first_failure"])
+			} else {
+				b["known_finding_classes_only"] = true
+			}
 		}
 	}
 	boundedEvidence = bounded
@@ -738,6 +769,8 @@ func runBounded(eng *Engine, id string, opts checkOpts, replayDir string) []map[
 		res, _ := runTestOverlay(filepath.Join(outDir(), "work", id, "bounded"), pkgPath, string(src), "zz_gocv_bounded_test.go", "^TestGocvBounded")
 		b := map[string]interface{}{"file": filepath.Base(f), "package": pkgPath, "wall_s": time.Since(t1).Seconds(), "cases": 0, "failures": 0, "label": "bounded (not counted as proved)"}
 		sawSummary := false
+		failClasses := map[string]string{}
+		b["failing_classes"] = failClasses
 		for _, ln := range strings.Split(res, "\n") {
 			ln = strings.TrimSpace(ln)
 			switch {
@@ -753,6 +786,17 @@ func runBounded(eng *Engine, id string, opts checkOpts, replayDir string) []map[
 			case strings.HasPrefix(ln, "GOCV-FAIL") || strings.HasPrefix(ln, "GOCV-PANIC"):
 				if b["first_failure"] == nil {
 					b["first_failure"] = ln
+				}
+				cl := "unclassified"
+				rest := strings.TrimSpace(strings.TrimPrefix(strings.TrimPrefix(ln, "GOCV-FAIL"), "GOCV-PANIC"))
+				if i := strings.Index(rest, ":"); i > 0 && !strings.ContainsAny(rest[:i], " \t") {
+					cl = rest[:i]
+				}
+				if strings.HasPrefix(ln, "GOCV-PANIC") {
+					cl = "panic"
+				}
+				if _, seen := failClasses[cl]; !seen {
+					failClasses[cl] = ln
 				}
 			}
 		}
